@@ -319,7 +319,8 @@ async function cmdFilter(path, outPath) {
   let n = 0, ctorRaises = 0;
   for (const cfg of spec.configs) {
     const a = cfg.allow.map((x) => x.raw).join(','), b = cfg.block.map((x) => x.raw).join(',');
-    if (a === '') delete process.env.LUNAR_ALLOW_LIST; else process.env.LUNAR_ALLOW_LIST = a;       // unset for "" (as py/c19_exec.py)
+    const envform = cfg.envform || 'normal';          // "allow-empty": LUNAR_ALLOW_LIST is SET to the empty string
+    if (a === '' && envform !== 'allow-empty') delete process.env.LUNAR_ALLOW_LIST; else process.env.LUNAR_ALLOW_LIST = a;       // unset for "" (as py/c19_exec.py)
     if (b === '') delete process.env.LUNAR_BLOCK_LIST; else process.env.LUNAR_BLOCK_LIST = b;
     let tf = null, ctor = null, world = null;
     try {
@@ -331,7 +332,7 @@ async function cmdFilter(path, outPath) {
       for (const h of spec.hosts) {
         for (const header of spec.headers) {
           const rec = { ev: 'case', impl: 'ts', allow: cfg.allow, block: cfg.block, host: h.h, hlow: h.hlow, hcanon: h.hcanon, kind: h.kind,
-                        ip: h.ip, ip6: h.ip6, rsv: h.rsv, header, round: rnd, exc: '', stage: '', passed: handedOver(h.h) };
+                        ip: h.ip, ip6: h.ip6, rsv: h.rsv, header, round: rnd, exc: '', stage: '', envform, passed: handedOver(h.h) };
           if (ctor) { rec.res = 'raise'; rec.exc = String(ctor && ctor.name); rec.stage = 'construct'; }
           else {
             const hv = header === 'absent' ? undefined : { 'x-lunar-allow': header === 'blank' ? '' : header, accept: '*/*' };
